@@ -189,6 +189,9 @@ def w_c21(seed):
         ("assert_eq(1 m, 1.05 m, 10 cm)", True), ("assert_eq(1 m, 1.2 m, 10 cm)", False), ("assert_eq(1 m, 1.1 m, 0.1 m)", None),
         ("assert_eq(1.2 m, 1 m, 10 cm)", False), ("assert_eq(1 m, 90 cm, 10.000001 cm)", True), ("assert_eq(2, 2.5, 0.5)", True), ("assert_eq(2, 2.5, 0.49)", False),
         ("assert_eq(NaN, NaN)", False), ("assert_eq(NaN, 1, 100)", False), ("assert_eq(-1 m, 1 m, 1 m)", False), ("assert_eq(-1 m, 1 m, 2 m)", True),
+        ("assert_eq([1, 2, 3], [1, 2])", False), ("assert_eq([1, 2], [1, 2, 3])", False), ("assert_eq([], [1])", False), ("assert_eq([[1], [2]], [[1], [2]])", True), ("assert_eq([[1], [2]], [[1], [2, 3]])", False),
+        ("assert_eq(\"ab\", \"abc\")", False), ("assert_eq(false, true)", False), ("assert_eq(1 km, 1000 m)", True), ("assert_eq(1000 m, 1 km)", True), ("assert_eq(1 km, 1001 m, 2 m)", True), ("assert_eq(1 km, 1001 m, 0.5 m)", False),
+        ("assert_eq(1001 m, 1 km, 0.0005 km)", False), ("assert_eq(1001 m, 1 km, 0.002 km)", True),
     ]
     inputs = [c + "\nprint(\"vx-marker\")" for c, _ in cases]
     got, raw = session(inputs)
@@ -245,6 +248,9 @@ C09_PROGRAMS = [
     ("struct Q { first: Scalar, second: Scalar, third: Scalar }\nlet q = Q { third: 3, first: 1, second: 2 }\nq.first * 100 + q.second * 10 + q.third", "123"),
     ("let vx_s = \"b\"\n\"a{vx_s}c{1 + 1}d\"", "\"abc2d\""),
     ("fn outer(x) = inner(x) + x where inner = sqr\nouter(3)", "12"),
+    # built-in (foreign) functions called through a function value keep the argument order
+    ("let vx_fn = mod\nvx_fn(17, 5)", "2"), ("fn vx_ap(f: Fn[(Scalar, Scalar) -> Scalar], a: Scalar, b: Scalar) -> Scalar = f(a, b)\nvx_ap(mod, 17, 5)", "2"),
+    ("let vx_sl = str_slice\nvx_sl(1, 3, \"abcdef\")", "\"bc\""), ("mod(17, 5)", "2"), ("let vx_cons = cons\nvx_cons(1, [2, 3])", "[1, 2, 3]"),
 ]
 
 
@@ -285,7 +291,12 @@ C10_CASES = [("2^-2^2", "0.0625"), ("2^3^2", "512"), ("-2^2", "-4"), ("2^-2", "0
              ("3!^2", "36"), ("2^3!", "64"), ("2²!", "24"), ("-3!", "-6"), ("2 3^2", "18"), ("if true then 1 else 2 + 1", "1"), ("1 + 2 < 4 && true", "true"),
              ("!false && false", "false"), ("2 m per 4 s * 2", "1 m/s"), ("8 / 2 / 2", "2"), ("2^2^-1", "1.41421"), ("- 2 3", "-6"), ("100 cm -> m -> cm", "100 cm"),
              ("if false then 1 else if false then 2 else 3", "3"), ("2⁻¹", "0.5"), ("(2 + 3) 2", "10"), ("1 + 1 == 2 || false", "true"), ("4 |> sqrt |> sqrt", "1.41421"),
-             ("2 ^ 3 per 4", "2"), ("-2!", "-2"), ("3 - -2", "5"), ("2 × 3 ÷ 6", "1")]
+             ("2 ^ 3 per 4", "2"), ("-2!", "-2"), ("3 - -2", "5"), ("2 × 3 ÷ 6", "1"),
+             # calls, argument lists, field access, parenthesised and list primaries
+             ("sqrt(16)", "4"), ("mod(7, 3,)", "1"), ("mod(\n7,\n3\n)", "1"), ("len([1, 2, 3])", "3"), ("[1, 2, 3,]", "[1, 2, 3]"), ("[true false]", "ERR"), ("(2 + 3", "ERR"),
+             ("sqrt(16]", "ERR"), ("mod(7; 3)", "ERR"), ("head([4, 5])", "4"), ("[1, 2\n,3]", "[1, 2, 3]"), ("struct P { x: Scalar }\nP { x: 3 }.x", "3"), ("[]", "[]"), ("[\n]", "[]"),
+             ("mod(true false)", "ERR"), ("(2 + 3] 2", "ERR"), ("sqrt(16) 2", "8"), ("[[1, 2], [3]]", "[[1, 2], [3]]"), ("element_at(1, [4, 5])", "5"), ("[1,, 2]", "ERR"), ("mod(7,, 3)", "ERR"), ("2(3 + 4)", "ERR"), ("12 / 2(3)", "ERR"),
+             ("struct P { x: Scalar }\nP { x: 3 }:x", "ERR")]
 C04_CASES = [("(10 m -> 2 m) -> m", "10 m"), ("6 hours -> 45 min", "8 × 45 min"), ("(0 m -> 2 m) -> cm", "0 cm"), ("1 km -> m", "1000 m"),
              ("let shifts = 6 hours -> 45 min\nshifts -> min", "360 min"), ("2 km^(2/3) -> m^(2/3)", "200 m^(2/3)"), ("1 mile -> km -> mile", "1 mi"), ("1 inch -> cm", "2.54 cm"),
              ("5 m * 2 cm -> m*cm", "10 m·cm"), ("2 kg m / s^2 -> N", "2 N"), ("-(1 km -> m) + 0 m", "-1000 m"), ("100 cm -> m -> cm", "100 cm")]
